@@ -16,17 +16,17 @@ CLAIMED = {
             "DESIGN.md §3 C01"),
     "C02": ("exploration",
             "differential step-stream monitor (pc, op, gas, cost, depth per callback) + gas-arithmetic monitor, swept over gas limits c-1/c/c+1",
-            "Debug-tracer callback streams of the fork and go-ethereum v1.12.0 are compared step by step on gas-relevant fields; the fork's own stream is checked for gas[i+1]=gas[i]-cost[i](+returned); each program is re-run on both VMs at limits one below / on / one above the cumulative consumption at (thinned) outer-frame steps; SSTORE (orig,cur,new) cube and call-gas/stipend corners on every fork.",
+            "Debug-tracer callback streams of the fork and go-ethereum v1.12.0 are compared step by step on gas-relevant fields; the fork's own stream is checked for gas[i+1]=gas[i]-cost[i](+returned); each program is re-run on both VMs at limits one below / on / one above the cumulative consumption at (thinned) outer-frame steps; SSTORE (orig,cur,new) cube and call-gas/stipend corners on every fork. Directed kinds: orders of self-destructs within one transaction (repeated, destroyed beneficiaries), call-gas operands beyond 64 bits, gas allowances up to 2^64-1 with join points off and on with nothing bound.",
             "Reference trusted; limits sampled around intermediate gas values of the outer frame (thinned to a cap), not all 2^64 limits.",
             "DESIGN.md §3 C02"),
     "C04": ("fault_enumeration",
             "fault injection at every join-point firing position + online frame-snapshot monitor + offline effect-log replay over the StateDB proxy log",
-            "Generated call trees (all call kinds, creates, value transfers, storage writes/logs before/inside/after calls, failing terminators) run on the real VM with real WASM Aspects bound; for each scenario a provider failure is injected at every join-point firing position in turn x 4 error kinds, plus trapping / gas-exhausting Aspects. Oracles: state at a failed frame's exit == copy taken at its entry snapshot; final state == pre-state + replay of exactly the mutations of frames that succeeded with all ancestors; the caller's next instruction sees flag 0.",
+            "Generated call trees (all call kinds, creates, value transfers, storage writes/logs before/inside/after calls, failing terminators) run on the real VM with real WASM Aspects bound; for each scenario a provider failure is injected at every join-point firing position in turn x 4 error kinds, plus trapping / gas-exhausting Aspects. Oracles: state at a failed frame's exit == copy taken at its entry snapshot; final state == pre-state + replay of exactly the mutations of frames that succeeded with all ancestors; the caller's next instruction sees flag 0. Also: value sent to failing and succeeding precompiles (nested and as the transaction target, every fork), and the rule that a frame reporting no error must have ended on STOP/RETURN/SELFDESTRUCT (an exceptional halt passed off as success).",
             "Trusts go-ethereum core/state (Copy, snapshots) as the state oracle; one injected fault per run; forks Byzantium..Shanghai.",
             "DESIGN.md §3 C04"),
     "C18": ("exploration",
             "differential callback-stream monitor (every argument of every debug-tracer callback) + byte-wise output comparison of 20 paired tracer configurations + Start/End, Enter/Exit balance automaton under injected join-point failures",
-            "The fork and go-ethereum v1.12.0 run the same generated in-domain program with full recorders; the callback sequences are compared argument by argument (pc, op, gas, cost, depth, stack, memory, return data, error class, from/to/input/gas/value, output/gasUsed). Each inherited tracer (struct x4, JSON x2, access-list, call x4, flatCall x4, prestate x2, 4byte, mux, noop) is attached on the fork and its upstream original on the reference, outputs compared byte-wise. Aspect-bound call trees with a failure injected at every firing position must keep Start/End and Enter/Exit balanced.",
+            "The fork and go-ethereum v1.12.0 run the same generated in-domain program with full recorders; the callback sequences are compared argument by argument (pc, op, gas, cost, depth, stack, memory, return data, error class, from/to/input/gas/value, output/gasUsed). Each inherited tracer (struct x4, JSON x2, access-list, call x4, flatCall x4, prestate x2, 4byte, mux, noop) is attached on the fork and its upstream original on the reference, outputs compared byte-wise. Aspect-bound call trees with a failure injected at every firing position must keep Start/End and Enter/Exit balanced. The access-list tracer is also constructed with a supplied list (sender, recipient, precompile, coinbase, duplicates).",
             "go-ethereum v1.12.0 tracers are the trusted originals; paired-tracer comparison uses Call/Create entry points (how a chain attaches tracers); access-list output compared as a sorted list (map order on both sides).",
             "DESIGN.md §3 C18"),
     "C11": ("exploration",
@@ -46,7 +46,7 @@ CLAIMED = {
             "DESIGN.md §3 C09"),
     "C07": ("exploration",
             "invariant monitor at quiescent points: structural walk of the public CallTree API + complete hook dump after every top-level return, cross-checked with a shadow attempt log built from the debug-tracer stream",
-            "After every top-level return (including follow-up invocations on one EVM and runs with a failure injected at every join-point firing, self-recursion to the depth limit, refused calls/creates) indices must be dense 0..n-1 in order of entry, every non-top node has exactly one smaller-index parent listing it once in increasing order, lookups return the node carrying the index, the four accessor pairs agree with the links, nothing is left open, and n and every parent equal the shadow log's.",
+            "After every top-level return (including follow-up invocations on one EVM and runs with a failure injected at every join-point firing, self-recursion to the depth limit, refused calls/creates) indices must be dense 0..n-1 in order of entry, every non-top node has exactly one smaller-index parent listing it once in increasing order, lookups return the node carrying the index, the four accessor pairs agree with the links, nothing is left open, and n and every parent equal the shadow log's. The host context is cancelled before / during some runs and the host uses the recorder bookkeeping API between transactions.",
             "Shadow log derived from Step/Enter/Exit events only; the hook dump (build tag verif) enumerates the lookup table.",
             "DESIGN.md §3 C07"),
     "C08": ("exploration",
@@ -61,12 +61,12 @@ CLAIMED = {
             "DESIGN.md §3 C10"),
     "C13": ("exploration",
             "boundary monitor: the harness-supplied Transfer function observes real balances before/after each transfer; offline comparison with the complete dump of account balance journals",
-            "For every transfer performed by the VM (C10's call trees: zero-value, self-transfers, new and code-less recipients, create endowments, frames that later revert, injected join-point failures) the expected entries per (account, shadow call index) are rebuilt from the observed balances and compared as integers with the complete dump and Balance(); entries without an observed transfer are reported.",
+            "For every transfer performed by the VM (C10's call trees: zero-value, self-transfers, new and code-less recipients, create endowments, frames that later revert, injected join-point failures) the expected entries per (account, shadow call index) are rebuilt from the observed balances and compared as integers with the complete dump and Balance(); entries without an observed transfer are reported. Kind targets sends value to the zero address, precompiles, itself, coinbase, sender, origin, empty and missing accounts, from different senders incl. the zero address.",
             "core.Transfer / StateDB balances are ground truth; call index from the shadow attempt log.",
             "DESIGN.md §3 C13"),
     "C05": ("fault_enumeration",
             "online/offline trace-specification checker: parenthesis automaton over provider firings, Aspect enter/exit, Enter/Exit and Step events with fault injection at every firing position; payloads read from the protobuf request given to real WASM Aspects",
-            "Generated call trees run unbound / disabled / with 0-3 real Aspects per join point / with a provider failure injected at every firing position x error kinds / with trapping and gas-exhausting Aspects / with the enable flag toggled between calls and from inside a re-entrant provider callback / with callees that end with exactly 0, 1, 2 gas left. Every CALL frame whose target has code gets exactly one pre firing before its first instruction and one post firing after its last and after all nested calls; nothing fires elsewhere or after a failed pre; each Aspect's request carries that call's caller, callee, calldata, value, gas, call-tree index and (post) the callee's own return data and error.",
+            "Generated call trees run unbound / disabled / with 0-3 real Aspects per join point / with a provider failure injected at every firing position x error kinds / with trapping and gas-exhausting Aspects / with the enable flag toggled between calls and from inside a re-entrant provider callback / with callees that end with exactly 0, 1, 2 gas left. Every CALL frame whose target has code gets exactly one pre firing before its first instruction and one post firing after its last and after all nested calls; nothing fires elsewhere or after a failed pre; each Aspect's request carries that call's caller, callee, calldata, value, gas, call-tree index and (post) the callee's own return data and error. Also: gas allowances up to 2^64-1, and contract code planted at every precompile address with Aspects bound to it (no join point where the fork makes the address a precompile).",
             "Payload checks need an Aspect bound; call index from the shadow attempt log; code size and enable flag read at frame entry.",
             "DESIGN.md §3 C05"),
     "C06": ("fault_enumeration",
@@ -91,22 +91,22 @@ CLAIMED = {
             "DESIGN.md §3 C15"),
     "C16": ("exploration",
             "repeated-execution monitor: byte comparison of canonical serialisations (every list-valued query in returned order) across K in-process repetitions, A-alone vs A-interleaved-with-B isolation runs, constants canary",
-            "The same transaction runs K=30 (quick) / 200 (thorough) times on equal pre-state in fresh EVMs in one process; return data, gas, error, state root, logs, full call tree, balance journals, every Children/ChildrenIndices/IndicesOfChanges/ChildrenOf result in returned order and the complete hook dump must be byte-identical. An unrelated execution B (other EVM/state, possibly other extra EIPs on the same fork) run to completion in the middle of A's execution and afterwards must not change A's or B's answers; shared 256-bit constants are compared with their initial values after every case.",
+            "The same transaction runs K=30 (quick) / 200 (thorough) times on equal pre-state in fresh EVMs in one process; return data, gas, error, state root, logs, full call tree, balance journals, every Children/ChildrenIndices/IndicesOfChanges/ChildrenOf result in returned order and the complete hook dump must be byte-identical. An unrelated execution B (other EVM/state, possibly other extra EIPs on the same fork) run to completion in the middle of A's execution and afterwards must not change A's or B's answers; shared 256-bit constants are compared with their initial values after every case. Hygiene programs (callees that underflow, fill the stack to 1024, read unwritten memory, around a callee leaving a deep stack and large memory) and a precompile-set isolation pair (B built on another fork in the middle of A) are included.",
             "Map-order dependence is sampled statistically (Go re-randomises per range statement); interleaving is at step granularity in one goroutine (true concurrency is C17).",
             "DESIGN.md §3 C16"),
     "C03": ("exploration",
             "hostile-input runtime monitoring in address-space-capped, journaling worker processes: panic/fatal-error detection at the entry-point boundary + post-condition assertions on hooked state (cursor, depth, static flag, follow-up Start) + read-cap sentinel",
-            "Random byte strings as code (biased to journal opcodes, Artela precompile calls, boundary pushes) x calldata x forks Frontier..Cancun x six entry points; for each journal opcode every operand position swept over boundary values 0..2^256-1 and memory-length-relative values, plus random combinations, under hostile memory and storage shapes (invalid encodings, lengths 2^12..2^64-1); every call kind to 0x64-0x66 from depth 1 and 3 with truncated/overflowing payloads; byte-mutated journal programs; Aspect-bound call trees with a failure injected at a join-point firing. No panic may escape, no worker may die, bookkeeping must be closed and a follow-up call announced as a depth-0 Start.",
+            "Random byte strings as code (biased to journal opcodes, Artela precompile calls, boundary pushes) x calldata x forks Frontier..Cancun x six entry points; for each journal opcode every operand position swept over boundary values 0..2^256-1 and memory-length-relative values, plus random combinations, under hostile memory and storage shapes (invalid encodings, lengths 2^12..2^64-1); every call kind to 0x64-0x66 from depth 1 and 3 with truncated/overflowing payloads; byte-mutated journal programs; Aspect-bound call trees with a failure injected at a join-point firing. No panic may escape, no worker may die, bookkeeping must be closed and a follow-up call announced as a depth-0 Start. Kind stdops sweeps every operand of every standard instruction that takes memory offsets/lengths over boundary values on four forks.",
             "Initialised host as an embedding chain provides; a crash needing one specific 256-bit value outside the boundary sets and random draws is not found; one unbounded-loop finding is recorded as known.",
             "DESIGN.md §3 C03"),
     "C20": ("exploration",
             "work-counter monitor at the host boundary: state reads (StateDB proxy) and allocated bytes (runtime TotalAlloc, sampled outside the recorder's own copies) per instruction against gas-proportional bounds, with a read-cap sentinel",
-            "Between consecutive instruction callbacks: state reads <= 16 + gas/20 and allocation <= 64 KiB + 64*gas + 4*memory, over C03's hostile generators (length fields 2^12..2^256-1 presented to journal instructions and Artela precompiles), single-instruction programs for every length-taking standard opcode with lengths 2^10..2^64 on 4 forks, standard precompiles with hostile length fields (modexp length triples up to 2^26, blake2f rounds), and the standard gadget workload as the no-false-alarm control.",
+            "Between consecutive instruction callbacks: state reads <= 16 + gas/20 and allocation <= 64 KiB + 64*gas + 4*memory, over C03's hostile generators (length fields 2^12..2^256-1 presented to journal instructions and Artela precompiles), single-instruction programs for every length-taking standard opcode with lengths 2^10..2^64 on 4 forks, standard precompiles with hostile length fields (modexp length triples up to 2^26, blake2f rounds), and the standard gadget workload as the no-false-alarm control. Also: jump-loop code of 4 KiB..1 MB as hash-less init code and as deployed code (one code analysis per frame allowed, summed jump allocation bounded) and BLOCKHASH served by core.GetHashFn over a counted header chain (at most 256 header reads per instruction).",
             "Hashing/copying work is observed through allocation and state reads; intervals in which the event log itself grows are not measured; the reference-journal length amplification is recorded as known findings.",
             "DESIGN.md §3 C20"),
     "C17": ("exploration",
             "Go race detector (-race build, checkptr) over barrier-started concurrent EVM instances with sequential-vs-concurrent result comparison; Cancel landing points swept on the VM's own step counter",
-            "N in {2..32} goroutines with their own EVM and state execute journal-heavy programs, Aspect-bound call trees and standard programs on one fork with and without extra EIPs; every result must equal the sequential run and every race report touching artela-evm is a violation (external reports are counted). Looping contracts are cancelled from another goroutine at step k (swept, incl. before start / after end / twice): no panic, bookkeeping closed, and a jump executed after Cancel() returned must end its frame.",
+            "N in {2..32} goroutines with their own EVM and state execute journal-heavy programs, Aspect-bound call trees and standard programs on one fork with and without extra EIPs; every result must equal the sequential run and every race report touching artela-evm is a violation (external reports are counted). Looping contracts are cancelled from another goroutine at step k (swept, incl. before start / after end / twice): no panic, bookkeeping closed, and a jump executed after Cancel() returned must end its frame. Groups on one fork share ONE block context and chain configuration between the concurrent instances (checked unmodified afterwards); every third member is configured like a gas-less call.",
             "Schedules are sampled, not enumerated; the detector sees executed accesses only; promptness judged in logical steps; a hang = watchdog = inconclusive.",
             "DESIGN.md §3 C17"),
 }
